@@ -65,7 +65,16 @@ def load(root, ast):
                 else:
                     node = e
                 if base:
-                    node.base = resolved
+                    # a base whose own chain leads back to the class itself is refused: the class keeps the base it had
+                    n, cyclic, steps = resolved, False, 0
+                    while n is not None and steps < 500:
+                        if n is node:
+                            cyclic = True
+                            break
+                        n = n.base
+                        steps += 1
+                    if not cyclic:
+                        node.base = resolved
                 if k == 'class':
                     apply(node, it[3])
             elif k == 'field':
@@ -217,6 +226,12 @@ def _body_root(self, root):
             if cands:
                 base = self.rng.choice(cands)
                 self.feats.add('inheritance')
+        if existing is not None and 'self-base' not in self.avoid and self.rng.random() < 0.12:
+            # an attempt to make the inheritance relation cyclic: the class itself, or a class derived from it, as its new base
+            cyc = [k for k, e in root.own.items() if isinstance(e, Node) and (e is existing or _derives(e, existing))]
+            if cyc:
+                base = self.rng.choice(cyc)
+                self.feats.add('cyclic-base-attempt')
         if existing is not None:
             self.feats.add('reopen' + ('-new-base' if base else ''))
         load(root, [('class', name, base, [])])
@@ -462,7 +477,7 @@ def main(tier):
              '>>, isNumber/isText/isArray/isClass, getNumber/getText/getArray, configName, inheritsFrom, configHierarchy, count, select; distinct = (feature set, number of loads)' % (60 if tier == 'quick' else 200),
         min_evaluations=100,
         assumptions=['reference config model in this module (own entries in declaration order, base resolved by enclosing-scope lookup at definition time, merge on re-open, delete marker hides, += prepends the inherited array)',
-                     'base classes are chosen so that the inheritance relation stays acyclic; cyclic definitions are exercised by termination probes only'])
+                     'base classes are chosen so that the inheritance relation stays acyclic, except for deliberate cyclic attempts on re-opened top-level classes, which the model (like the repaired code) refuses'])
 
 
 def _cmp(a, b):
